@@ -121,7 +121,8 @@ def gen_extract():
             else: names.extend(line.split())
     seen = set(); names = [n for n in names if not (n in seen or seen.add(n))]
     allv = ("(* GENERATED by bin/lib.py from coq/extract/*.items -- do not edit *)\n"
-            "Require Extraction.\nRequire Import ExtrOcamlBasic.\n" + "\n".join(reqs) +
+            "Require Extraction.\nRequire Import ExtrOcamlBasic.\n"
+            "Extraction Blacklist String.  (* file naming only: an extracted Coq String module must not shadow OCaml's *)\n" + "\n".join(reqs) +
             "\nSeparate Extraction\n  " + "\n  ".join(names) + ".\n")
     gen = os.path.join(OCAML, "gen")
     os.makedirs(gen, exist_ok=True)
